@@ -24,6 +24,12 @@ func init() {
 	})
 }
 
+func c07Premises(c *Ctx, p *Prog) {
+	// a move read from the transposition table is searched (and can head a reported line) only if
+	// IsPseudoLegal accepts it: the acceptor must not accept what the generator would never emit
+	c.As("C05.R", "C07.R6.table-move-gate:R", func() { c05R1R4(c, p); c05R2(c, p) })
+}
+
 func runC07(c *Ctx) {
 	p := c.need("default")
 	if p == nil {
@@ -34,6 +40,7 @@ func runC07(c *Ctx) {
 	c07R3R4(c, p)
 	// a line is only legal from the root if the search leaves the board as it found it
 	rulePairs(c, p, "C07.R5")
+	c07Premises(c, p)
 }
 
 // varargValues returns the values packed into the variadic slice argument v.
